@@ -23,11 +23,11 @@ ENCODED = ["twisted.application._client_service:makeMachine", "twisted.applicati
            "twisted.application._client_service:_DisconnectFactory",
            "twisted.application._client_service:_ReconnectingProtocolProxy",
            "twisted.internet.task:Clock.advance", "twisted.internet.task:Clock.callLater"]
-BOUNDS = {"quick": {"plain": 5, "prep": 5}, "thorough": {"plain": 7, "prep": 6}}
+BOUNDS = {"quick": {"plain": 5, "prep": 5, "k": 2}, "thorough": {"plain": 7, "prep": 6, "k": 3}}
 B = {}
 BOUNDS_TEXT = ("every history of <= plain events (no prepareConnection hook) and of <= prep events (hook returning a "
                "Deferred the harness fires or fails later; with a hook returning at once: one event less) over "
-               "{startService, stopService, whenConnected(None), whenConnected(k) with k symbolic in 1..2, attempt "
+               "{startService, stopService, whenConnected(None), whenConnected(k) with k symbolic in 0..k (0 and 1 both mean: fail at the next failed attempt), attempt "
                "succeeds, attempt fails, connection drops, prepareConnection Deferred succeeds / fails, advance the "
                "clock to the retry / by half the remaining delay}; retry policy 1, 2, 4, ... seconds for the 1st, "
                "2nd, 3rd consecutive failure (concrete floats)")
@@ -438,8 +438,8 @@ def plain(n: int, o0: int, o1: int, o2: int, o3: int, o4: int, o5: int, o6: int,
     pre: 0 <= n <= B['plain']
     pre: 0 <= o0 <= 10 and 0 <= o1 <= 10 and 0 <= o2 <= 10 and 0 <= o3 <= 10
     pre: 0 <= o4 <= 10 and 0 <= o5 <= 10 and 0 <= o6 <= 10
-    pre: 1 <= k0 <= 2 and 1 <= k1 <= 2 and 1 <= k2 <= 2 and 1 <= k3 <= 2
-    pre: 1 <= k4 <= 2 and 1 <= k5 <= 2 and 1 <= k6 <= 2
+    pre: 0 <= k0 <= B['k'] and 0 <= k1 <= B['k'] and 0 <= k2 <= B['k'] and 0 <= k3 <= B['k']
+    pre: 0 <= k4 <= B['k'] and 0 <= k5 <= B['k'] and 0 <= k6 <= B['k']
     post: _
     """
     return _run(0, _ops(n, [o0, o1, o2, o3, o4, o5, o6]), [k0, k1, k2, k3, k4, k5, k6])
@@ -451,8 +451,8 @@ def prep(pm: int, n: int, o0: int, o1: int, o2: int, o3: int, o4: int, o5: int, 
     pre: 0 <= pm <= 1 and 0 <= n <= B['prep'] and (pm == 0 or n < B['prep'])
     pre: 0 <= o0 <= 10 and 0 <= o1 <= 10 and 0 <= o2 <= 10 and 0 <= o3 <= 10
     pre: 0 <= o4 <= 10 and 0 <= o5 <= 10 and 0 <= o6 <= 10
-    pre: 1 <= k0 <= 2 and 1 <= k1 <= 2 and 1 <= k2 <= 2 and 1 <= k3 <= 2
-    pre: 1 <= k4 <= 2 and 1 <= k5 <= 2 and 1 <= k6 <= 2
+    pre: 0 <= k0 <= B['k'] and 0 <= k1 <= B['k'] and 0 <= k2 <= B['k'] and 0 <= k3 <= B['k']
+    pre: 0 <= k4 <= B['k'] and 0 <= k5 <= B['k'] and 0 <= k6 <= B['k']
     post: _
     """
     if pm == 0:
@@ -568,6 +568,7 @@ HARNESSES = [
 VECTORS = {
     "plain": [(4, 0, 4, 1, 6, 0, 0, 0, 1, 1, 1, 1, 1, 1, 1), (5, 0, 3, 5, 9, 5, 0, 0, 1, 2, 1, 1, 1, 1, 1),
               (7, 0, 4, 1, 2, 0, 1, 6, 1, 1, 1, 1, 1, 1, 1), (5, 0, 5, 10, 10, 4, 0, 0, 1, 1, 1, 1, 1, 1, 1),
-              (2, 2, 1, 0, 0, 0, 0, 0, 1, 1, 1, 1, 1, 1, 1)],
+              (2, 2, 1, 0, 0, 0, 0, 0, 1, 1, 1, 1, 1, 1, 1), (3, 0, 3, 5, 0, 0, 0, 0, 1, 0, 1, 1, 1, 1, 1),
+              (7, 0, 3, 5, 9, 5, 9, 5, 1, 3, 1, 1, 1, 1, 1)],
     "prep": [(0, 7, 0, 2, 4, 7, 3, 6, 9, 1, 1, 1, 1, 2, 1, 1), (1, 6, 0, 2, 4, 3, 1, 6, 0, 1, 1, 1, 1, 1, 1, 1)],
 }
